@@ -1,0 +1,40 @@
+//go:build verif
+
+package event
+
+import (
+	"runtime"
+	"sync/atomic"
+)
+
+// Scheduler yield points inside Feed.Send / Feed.remove, driven by a plan the
+// verification harness installs (build tag verif only). plan[(point*31+count)
+// mod len] is the number of runtime.Gosched calls made at that visit.
+
+var (
+	verifPlan  atomic.Value // []uint8
+	verifCount [8]uint32
+)
+
+// VerifSetYieldPlan installs a yield plan (nil disables yielding).
+func VerifSetYieldPlan(plan []uint8) {
+	for i := range verifCount {
+		atomic.StoreUint32(&verifCount[i], 0)
+	}
+	if plan == nil {
+		plan = []uint8{}
+	}
+	verifPlan.Store(plan)
+}
+
+func verifYield(point int) {
+	p, _ := verifPlan.Load().([]uint8)
+	if len(p) == 0 {
+		return
+	}
+	c := atomic.AddUint32(&verifCount[point], 1)
+	n := p[(uint32(point)*31+c)%uint32(len(p))]
+	for i := uint8(0); i < n; i++ {
+		runtime.Gosched()
+	}
+}
